@@ -120,7 +120,7 @@ class Model:
 @st.composite
 def screen_params(draw):
     kind = draw(st.sampled_from(["vk", "fried"]))
-    ps = draw(gen.logfloat(0.02, 0.5))
+    ps = draw(st.one_of(gen.logfloat(0.02, 0.5), st.sampled_from([1, 2])))
     p = {"kind": kind, "nx": draw(st.integers(2, 14)), "ps": ps, "r0": draw(gen.logfloat(0.05, 1.0)), "L0": ps * draw(gen.logfloat(5.0, 500.0)),
          "gen": draw(st.sampled_from(["scripted", "scripted", "real"])), "seed": draw(st.integers(0, 2**32 - 1))}
     if kind == "vk":
